@@ -13,12 +13,12 @@ from .base import Result, V
 from . import simcommon as SC
 from .c07 import dev
 
-MODULES = ['TickitModel.Props.C06']
-THEOREMS = ['addWakeup_length', 'addWakeup_unique', 'delWakeups_unique']
+MODULES = ['TickitModel.Props.C14', 'TickitModel.Props.C06']
+THEOREMS = ['resources_bounded', 'peak_bounded', 'leaky_grows', 'leaky_tcp_grows', 'addWakeup_length', 'addWakeup_unique', 'delWakeups_unique']
 ANCHORS = ["src/tickit/core/components/system_component.py", "src/tickit/core/management/schedulers/master.py",
            "src/tickit/core/management/ticker.py", "src/tickit/core/management/schedulers/base.py", "src/tickit/adapters/io/tcp_io.py"]
 TECHNIQUE = 'Lean 4 theorems on the bookkeeping bound (one wakeup entry per component) and a ledger model of task creation/release per scheduler operation + measurement of the real event loop (live tasks, retained finished tasks via gc, timers, bookkeeping entries) after N, 2N, 4N ticks / messages'
-LEVEL_TEXT = 'PARTIAL. Proved: the wakeup bookkeeping holds at most one entry per component for every history (add_wakeup overwrites; uniqueness preserved by add and delete). The ledger theorems (every scheduler operation releases the tasks and timers it creates; Props/C14.lean) are registered once proved. Task and timer lifetimes are asyncio runtime behaviour that the model can only tabulate, so the weight is on measurement: 7 long runs (flat periodic, nested periodic, depth-2, far callback pre-empted by interrupts; with and without interrupts) are measured after N, 2N, 4N master ticks (N = 40 quick / 500 thorough): live tasks, finished-but-retained Task objects (gc), pending timers, wakeups, pending interrupts; plus 1200 / 16000 messages on one TCP connection through the real handle function with fake streams; a resource that is higher at 4N than at N by more than 2 with non-decreasing differences is reported.'
+LEVEL_TEXT = 'PARTIAL. Proved: the wakeup bookkeeping holds at most one entry per component for every history; in the ledger model (which tabulates, per scheduler operation, the tasks/timers/entries it creates and releases) every history of ticks, pre-emptions, interrupts, system ticks and TCP chunks returns live tasks, retained tasks and timers to their baseline with entries <= 2 per component, the excess inside an operation is bounded by the components taking part, and the pre-repair behaviour grows linearly. Task and timer lifetimes are asyncio runtime behaviour that a model can only tabulate, so the weight is on measurement: 7 long runs (flat periodic, nested periodic, depth-2, far callback pre-empted by interrupts; with and without interrupts) are measured after N, 2N, 4N master ticks (N = 40 quick / 500 thorough): live tasks, finished-but-retained Task objects (gc), pending timers, wakeups, pending interrupts; plus 1200 / 16000 messages on one TCP connection through the real handle function with fake streams; a resource that is higher at 4N than at N by more than 2 with non-decreasing differences is reported.'
 LEVEL_NOTE = 'Trusts: Lean kernel for the bookkeeping bound; CPython gc and asyncio.all_tasks for the measurement; harness tasks are excluded by name.'
 ASSUMPTIONS = ['one open TCP connection; fake streams that never block']
 
